@@ -217,3 +217,43 @@ pub fn run_mf(rep: &mut Report, rng: &mut Rng, thorough: bool, sweep: bool) {
         rep.case(format!("mf:{}:{}:{}:{}:{}", bt4 as u8, dict_class(dict), nice, kind, size_class(data.len())), !data.is_empty(), || detail());
     }
 }
+
+/// The whole fast-mode encoder (match finder + parser + range coder) as modelled in `Model/EncFast.lean` against the
+/// real `LZMAWriter::new_no_header(.., false)`: the model must produce the SAME BYTES (request `encfast.parse …
+/// enc=1 bytesonly=1`), for HC4 (the theorem `fast_roundtrip_generated` covers it) and BT4 (model only).
+pub fn run_encfast(rep: &mut Report, rng: &mut Rng, thorough: bool, sweep: bool) {
+    let n = if thorough { 500 } else if sweep { 150 } else { 50 };
+    for i in 0..n {
+        let mut r = rng.fork();
+        let bt4 = i % 3 == 2;
+        let dict: u32 = *r.pick(&[4096u32, 4096, 5000, 8192, 65536]);
+        let nice: u32 = *r.pick(&[8u32, 16, 32, 64, 273]);
+        let depth: i32 = *r.pick(&[0i32, 0, 1, 48]);
+        let (lc, lp, pb) = *r.pick(&[(3u32, 0u32, 2u32), (0, 0, 0), (4, 0, 4), (0, 4, 2), (8, 4, 4), (1, 3, 1)]);
+        let len = match r.below(6) {
+            0 => r.range(0, 6) as usize,
+            1 => r.range(6, 600) as usize,
+            2 | 3 => r.range(600, 20_000) as usize,
+            4 => dict as usize * 2 + r.range(0, 3000) as usize,
+            _ => if thorough || sweep { r.range(270_000, 320_000) as usize } else { r.range(20_000, 60_000) as usize },
+        };
+        let kind = r.below(7);
+        let data = mf_data(&mut r, kind, dict as usize, len);
+        let lz = crate::codec::LzOpts { dict, lc, lp, pb, normal: false, nice, bt4, depth, preset: None };
+        let (_, parts) = gen_partition(&mut r, data.len());
+        let detail = || json!({"stratum": "encfast", "opts": lz.json(), "data_kind": kind, "data_len": data.len(), "data_fnv": fnv(&data), "data_hex": if data.len() <= 300 { hex(&data) } else { String::new() }});
+        rep.count(&format!("encfast.{}", if bt4 { "bt4" } else { "hc4" }));
+        match crate::codec::lzma_compress(&data, &lz, crate::codec::LzmaFmt::RawSize, &parts) {
+            Outcome::Ok(c) => {
+                if data.len() <= if thorough { 330_000 } else { 70_000 } {
+                    rep.model(
+                        format!("encfast.parse kind={} dict={dict} lc={lc} lp={lp} pb={pb} nice={nice} depth={} data={} enc=1 bytesonly=1", if bt4 { "bt4" } else { "hc4" }, depth.max(0), hex(&data)),
+                        format!("ok {} {}", c.len(), fnv(&c)),
+                    );
+                }
+            }
+            other => rep.fail(&format!("lzma-write-{}", other.class()), &other.describe(), detail()),
+        }
+        rep.case(format!("encfast:{}:{}:{}:{}:{}", bt4 as u8, dict_class(dict), nice, kind, size_class(data.len())), !data.is_empty(), || detail());
+    }
+}
